@@ -5,6 +5,7 @@ import (
 	"fmt"
 	"io"
 	"math/big"
+	"strings"
 	"testing"
 
 	"pgregory.net/rapid"
@@ -130,6 +131,12 @@ func runPaillierN(t *rapid.T, test string, h heavySpec) {
 	}
 	var verr error
 	msg, stack := catchPanic(func() { verr = paillierNVerify(k, cs, m.bytes) })
+	if undecidedLeadingZero(m) && msg == "" {
+		// the integer is unchanged, the re-encoding is not (announced length kept): no verdict asserted, see runTamper
+		vlib.Case(test, vlib.Desc("pailliern", "own-ni", "PN", group, "tamper:"+m.op, "undecided:leading-zero"), false,
+			"op="+m.op, fmt.Sprintf("verdict=undecided:leading-zero:accepted=%v", verr == nil))
+		return
+	}
 	violation := ""
 	switch {
 	case msg != "":
@@ -138,6 +145,13 @@ func runPaillierN(t *rapid.T, test string, h heavySpec) {
 		violation = "rejected-same-values"
 	case verdict != "accept:same-values" && verr == nil:
 		violation = "accepted"
+	}
+	if violation == "accepted" && m.op == "plus-order" {
+		// catalogued finding (proposed id): sigma_i + N verifies like sigma_i; exactly this input is excluded
+		vlib.Excluded(knownPaillierNUnreduced)
+		vlib.Case(test, vlib.Desc("pailliern", "own-ni", "PN", group, "tamper:"+m.op, "excluded:"+knownPaillierNUnreduced), false,
+			"op="+m.op, "verdict=excluded:"+knownPaillierNUnreduced)
+		return
 	}
 	if violation != "" {
 		if discoverMode() {
@@ -331,4 +345,54 @@ func TestPaillierOwnAPIs(t *testing.T) {
 			runLPDL(t, test, h)
 		}
 	})
+}
+
+// pailliern.Verify checks rho_i == sigma_i^N mod N for the decoded sigma_i without requiring sigma_i < N, so
+// sigma_i + N (a different decoded value) verifies as well: the proof is malleable.
+const knownPaillierNUnreduced = "C08-pailliern-unreduced-sigma-accepted"
+
+// TestKnownPaillierNUnreduced observes that finding on fixture keys: N is added to the first sigma whose sum
+// still fits the encoded width.
+func TestKnownPaillierNUnreduced(t *testing.T) {
+	if k, _ := vlib.Shard(); k != 0 {
+		t.Skip("observed by shard 0")
+	}
+	tried, accepted := 0, 0
+	for i := 0; i < 6 && tried < 2; i++ {
+		k := paillierKey(512, "ord", i, (i+1)%6)
+		cs := ctxSpec{Seed: uint64(900 + i)}
+		proof, err := paillierNProve(k, cs)
+		if err != nil {
+			t.Fatalf("COMPLETENESS: pailliern on %s: %v", k.id, err)
+		}
+		root, err := decodeTree(proof)
+		if err != nil {
+			t.Fatalf("harness: %v", err)
+		}
+		for _, s := range walk(root) {
+			if !s.isLeaf() || s.n.major != 2 || !strings.HasSuffix(s.class, ".natBytes") {
+				continue
+			}
+			v := new(big.Int).SetBytes(s.n.data)
+			v.Add(v, k.n.Big())
+			if v.BitLen() > 8*len(s.n.data) {
+				continue
+			}
+			v.FillBytes(s.n.data)
+			tried++
+			var verr error
+			msg, _ := catchPanic(func() { verr = paillierNVerify(k, cs, root.encode()) })
+			if msg != "" {
+				t.Fatalf("pailliern.Verify panicked on sigma+N: %s", msg)
+			}
+			if verr == nil {
+				accepted++
+			}
+			break
+		}
+	}
+	if tried == 0 {
+		t.Skip("no sigma + N fits the encoded width on the tried keys")
+	}
+	vlib.Known(knownPaillierNUnreduced, accepted > 0, fmt.Sprintf("pailliern: %d of %d proofs with sigma_i replaced by sigma_i + N were accepted", accepted, tried))
 }
